@@ -133,7 +133,10 @@ def build(case, provider):
             lines.append("ACTION:DISPLAY")
             t = a["trigger"]
             if t is not None:
-                rel = f";RELATED={a['related']}" if a.get("related") else ""
+                relv = a.get("related")
+                if relv and a.get("related_case"):     # parameter values outside quotes are case-insensitive (RFC 5545 3.2)
+                    relv = {"lower": relv.lower(), "title": relv.title()}[a["related_case"]]
+                rel = f";RELATED={relv}" if relv else ""
                 if t["k"] == "utc":
                     lines.append(f"TRIGGER;VALUE=DATE-TIME:{R.fmt_dt(t['v'], True)}")
                 else:
@@ -324,6 +327,7 @@ def cases(draw):
         if tk == "rel":
             a["trigger"] = draw(_trig_td)
             a["related"] = draw(st.sampled_from([None, None, "START", "END", "END"]))
+            a["related_case"] = draw(st.sampled_from([None, None, "lower", "title"]))
         elif tk == "abs":
             a["trigger"] = draw(V.s_utc)
         a["repeat"] = draw(st.sampled_from([None, 0, 1, 2, 5]))
